@@ -497,10 +497,15 @@ func writeEvidence(rd *runData, prop, tier string, seed int, sel, discharged, kn
 			assumedUsed[k] = true
 		}
 	}
-	var au []string
+	var au, counters []string
 	for k := range assumedUsed {
+		if strings.HasPrefix(k, "arithmetic counter-step ") {
+			counters = append(counters, strings.TrimPrefix(k, "arithmetic counter-step "))
+			continue
+		}
 		au = append(au, k)
 	}
+	sort.Strings(counters)
 	sort.Strings(au)
 	sort.Strings(fns)
 	sort.Strings(notes)
@@ -529,6 +534,9 @@ func writeEvidence(rd *runData, prop, tier string, seed int, sel, discharged, kn
 		assumptions = append(assumptions, "signed machine integers are checked for overflow (arith.no_overflow) in every function under contract except these, where a 64-bit counter incremented by one per call/attempt is treated as mathematical (2^63 increments are out of scope): "+strings.Join(mathArith, ", "))
 	} else {
 		assumptions = append(assumptions, "signed machine integers are checked for overflow (arith.no_overflow) in every function under contract used by this check")
+	}
+	if len(counters) > 0 {
+		assumptions = append(assumptions, "fields declared `counter` change by steps of one only (obligation counter.unit_step at every store) and are treated as mathematical, 2^63 steps away from wrapping: "+strings.Join(counters, ", "))
 	}
 	assumptions = append(assumptions, "unsigned 64-bit counters (store revisions, disconnect generations) are mathematical everywhere: a wrap-around after 2^64 increments is out of scope")
 	if len(au) > 0 {
